@@ -21,15 +21,17 @@ CLAIMED = {
                 "characterised clause by clause (C01_same_type, C01_xyz_bit_identical, C01_measures + C01_measure_rule, "
                 "C01_kinds_and_box, C01_roles): same variant and part structure, X/Y/Z and box bit-identical, measures "
                 "bit-identical for points and normalised to NO_DATA exactly when NaN or <= NO_DATA for multi-vertex shapes, "
-                "patch kinds kept, ring roles = orientation of the stored vertex order. Proof: writer invariant (files = "
+                "patch kinds kept, ring roles = orientation of the stored vertex order, which for a constructed polygon whose rings "
+                "lie in the exact domain of Proofs/F64Exact.v with non-zero exact area is the role it was built with "
+                "(C01_roles_kept). Proof: writer invariant (files = "
                 "final_shp), encoder = whitepaper layout (EncodeRef), layout conformant (LayoutConf), reader decodes conformant "
                 "files (C03), denotation of the stored record = on_read. The routes through the .shx (sequential with index, "
                 "random access in non-monotone order followed by iteration) and files on disk opened by path are covered by the "
                 "correspondence check and the direct round-trip oracle on the real code.",
         "note": COMMON_NOTE + "Guards: FileFits (file length fits its i32 field) and RecordsFit (each record below 2 GiB: the "
-                "reader rejects larger ones). Role-kept-for-non-zero-exact-area is checked by the oracle with exact rational "
-                "arithmetic on the implementation's output (rings whose double evaluation is inexact are exempted, see DESIGN "
-                "F13). on_read mentions the orientation test (Flocq), hence the four classical-reals axioms of the standard "
+                "reader rejects larger ones). Role-kept-for-non-zero-exact-area is proved on the exact domain (C01_roles_kept) "
+                "and also checked by the oracle with exact rational arithmetic on the implementation's output (rings whose "
+                "double evaluation is inexact are exempted, see DESIGN F13). on_read mentions the orientation test (Flocq), hence the four classical-reals axioms of the standard "
                 "library. Files on disk go through BufWriter/BufReader/File: correspondence only.",
         "technique": "Coq proof (composition of writer invariant, encoder-emits-spec, reader-decodes-spec) + differential "
                      "correspondence on constructor/writer/reader pipelines + round-trip oracle",
@@ -270,10 +272,15 @@ CLAIMED = {
                 "altered or moved - whatever the orientation test answers), C16_closed (first == last in every coordinate the "
                 "point type has, X/Y and M/Z, when the first vertex has no NaN), C16_orientation (the orientation test of the "
                 "stored order returns the declared role whenever the test tells the closed ring from its mirror image), "
-                "C16_idempotent (rebuilding from its own closed, correctly oriented rings is the identity). PARTIAL: the link "
-                "between the IEEE shoelace test and the EXACT signed area (Outer clockwise / Inner counter-clockwise for "
-                "non-zero area on the exact domain) is not proved (F64Exact was not completed); it is checked on the "
-                "implementation's output with exact rational arithmetic on every generated ring.",
+                "C16_idempotent (rebuilding from its own closed, correctly oriented rings is the identity). Orientation by EXACT "
+                "signed area is proved on the exact domain (Proofs/F64Exact.v, through Flocq's Bplus/Bminus/Bmult/Bdiv_correct): "
+                "when the X/Y of the closed ring are finite doubles z*2^e with a common exponent -500<=e<=480 and integers "
+                "|z|<=C with (vertices+1)*4C^2 < 2^53, every IEEE operation of the shoelace evaluation is exact and the test "
+                "is the sign of the exact sum (C16_test_is_exact_sign); reversal negates the exact area (C16_area_of_reverse); "
+                "the stored ring is clockwise when Outer and counter-clockwise when Inner by exact area, either order for zero "
+                "area (C16_orientation_exact); rebuilding a polygon with non-zero exact areas is the identity "
+                "(C16_idempotent_exact). Outside that domain (inexact evaluation) the property makes no orientation claim; the "
+                "oracle also checks the exact-rational orientation on every generated ring whose double evaluation is exact.",
         "note": COMMON_NOTE + "The orientation test is Flocq's binary64 arithmetic (four classical-reals stdlib axioms). Macros "
                 "expand to the same constructors and are not exercised separately.",
         "technique": "Coq proof (list lemmas on closing/reversal, case analysis on the orientation test) + differential "
